@@ -10,6 +10,7 @@ import (
 	"go/ast"
 	"go/token"
 	"go/types"
+	"sort"
 	"strings"
 )
 
@@ -67,8 +68,16 @@ func (s Schema) String() string {
 		if p.Dead {
 			continue
 		}
-		out = append(out, "["+strings.Join(p.Conds, ",")+"] "+toksString(p.Toks))
+		var conds []string
+		for _, c := range p.Conds {
+			if !strings.HasPrefix(c, "#") {
+				conds = append(conds, c)
+			}
+		}
+		sort.Strings(conds)
+		out = append(out, "["+strings.Join(conds, ",")+"] "+toksString(p.Toks))
 	}
+	sort.Strings(out) // canonical: independent of the order in which branches are written
 	return strings.Join(out, " | ")
 }
 
@@ -123,6 +132,40 @@ func appendTok(paths []SchemaPath, t Tok) []SchemaPath {
 }
 
 // condKey renders a boolean discriminator condition as "Name=true/false".
+// condKeyIn is condKey with the discriminator's name made independent of a
+// parameter's current spelling: a bool parameter is named as on the tree the
+// rules were written against (paramtable.go).
+func condKeyIn(f *Func, e ast.Expr) (key string, val bool, ok bool) {
+	key, val, ok = condKey(f.Info(), e)
+	if !ok {
+		return
+	}
+	x := e
+	for {
+		x = ast.Unparen(x)
+		if u, isU := x.(*ast.UnaryExpr); isU && u.Op == token.NOT {
+			x = u.X
+			continue
+		}
+		break
+	}
+	if id, isId := x.(*ast.Ident); isId && f.Obj != nil {
+		o := f.Info().Uses[id]
+		i := 0
+		for _, fld := range f.Type.Params.List {
+			for _, nm := range fld.Names {
+				if f.Info().Defs[nm] == o {
+					if names, has := frozenParams[f.Obj.FullName()]; has && i < len(names) {
+						key = names[i]
+					}
+				}
+				i++
+			}
+		}
+	}
+	return
+}
+
 func condKey(info *types.Info, e ast.Expr) (key string, val bool, ok bool) {
 	val = true
 	for {
@@ -185,7 +228,7 @@ func (w *wctx) stmts(list []ast.Stmt, b types.Object, paths []SchemaPath) []Sche
 			if s.Init != nil {
 				paths = w.stmts([]ast.Stmt{s.Init}, b, paths)
 			}
-			key, val, ok := condKey(info, s.Cond)
+			key, val, ok := condKeyIn(w.f, s.Cond)
 			var elseList []ast.Stmt
 			switch e := s.Else.(type) {
 			case *ast.BlockStmt:
@@ -647,15 +690,27 @@ func (r *rctx) stmts(list []ast.Stmt, paths []*rpath) []*rpath {
 				elseList = []ast.Stmt{e}
 			}
 			// `if x.Empty() {A} else {B}`: fork on emptiness of a substring
-			if call, ok := ast.Unparen(s.Cond).(*ast.CallExpr); ok && isStringMethod(info, call, "Empty") {
+			condE, negE := ast.Unparen(s.Cond), false
+			for {
+				u, isNot := condE.(*ast.UnaryExpr)
+				if !isNot || u.Op != token.NOT {
+					break
+				}
+				condE, negE = ast.Unparen(u.X), !negE
+			}
+			if call, ok := condE.(*ast.CallExpr); ok && isStringMethod(info, call, "Empty") {
 				so := stringRecv(info, call)
+				thenList, otherList := s.Body.List, elseList
+				if negE {
+					thenList, otherList = elseList, s.Body.List
+				}
 				paths = r.forkR(paths, func(p *rpath) []*rpath {
 					pe := p.clone()
 					pe.conds = append(pe.conds, "empty("+so.Name()+")")
 					pe.add(so, Tok{Kind: "end", Pos: call.Pos()})
 					pn := p.clone()
 					pn.conds = append(pn.conds, "nonempty("+so.Name()+")")
-					return append(r.stmts(s.Body.List, []*rpath{pe}), r.stmts(elseList, []*rpath{pn})...)
+					return append(r.stmts(thenList, []*rpath{pe}), r.stmts(otherList, []*rpath{pn})...)
 				})
 				continue
 			}
